@@ -29,7 +29,8 @@ static NEXT_SLOT: AtomicUsize = AtomicUsize::new(0);
 static SKIP: OnceLock<Mutex<HashMap<u64, String>>> = OnceLock::new();
 static WALL_LIMIT_MS: AtomicUsize = AtomicUsize::new(10_000);
 /// per slot: the CPU clock of the thread that owns it and the CPU time (ms) it had at `enter`
-static CPU_CLOCK: [std::sync::atomic::AtomicI64; NSLOTS] = [const { std::sync::atomic::AtomicI64::new(-1) }; NSLOTS];
+/// (clock ids of thread CPU clocks are negative numbers: "unset" is i64::MIN, not -1)
+static CPU_CLOCK: [std::sync::atomic::AtomicI64; NSLOTS] = [const { std::sync::atomic::AtomicI64::new(i64::MIN) }; NSLOTS];
 static CPU_AT_ENTER: [std::sync::atomic::AtomicU64; NSLOTS] = [const { std::sync::atomic::AtomicU64::new(0) }; NSLOTS];
 
 fn cpu_ms(clock: libc::clockid_t) -> Option<u64> {
@@ -151,7 +152,7 @@ pub fn enter(sql: &str, ctx: u64) {
                 CPU_AT_ENTER[s].store(cpu_ms(clk).unwrap_or(0), Ordering::SeqCst);
                 CPU_CLOCK[s].store(clk as i64, Ordering::SeqCst);
             } else {
-                CPU_CLOCK[s].store(-1, Ordering::SeqCst);
+                CPU_CLOCK[s].store(i64::MIN, Ordering::SeqCst);
             }
             std::ptr::write_volatile(p as *mut u64, now_ms());
         });
@@ -212,8 +213,9 @@ fn watchdog(sh: usize) {
             // good (deadlock) uses none: those are given 40x the limit in wall time before the statement is
             // declared hung.
             let clk = CPU_CLOCK[slot].load(Ordering::SeqCst);
-            let burned = if clk >= 0 { cpu_ms(clk as libc::clockid_t).map(|c| c.saturating_sub(CPU_AT_ENTER[slot].load(Ordering::SeqCst))) } else { None };
-            let busy = burned.map(|b| b > limit).unwrap_or(true);
+            let burned = if clk != i64::MIN { cpu_ms(clk as libc::clockid_t).map(|c| c.saturating_sub(CPU_AT_ENTER[slot].load(Ordering::SeqCst))) } else { None };
+            // no readable CPU clock: only the (generous) wall rule applies
+            let busy = burned.map(|b| b > limit).unwrap_or(false);
             if busy || wall > limit * 40 {
                 record_skip(&sql, hash, "hang", &tag);
                 eprintln!("verif-guard: statement exceeded the {limit} ms wall limit, restarting without it: {}", crate::infra::one_line(&sql, 200));
